@@ -129,11 +129,17 @@ func exportTables(p *Profile, sch *Schema) map[string]interface{} {
 		Container string `json:"container"`
 		Slot      string `json:"slot"`
 		M         int    `json:"m"`
+		GoType    string `json:"gotype"`  // the member's struct type
+		RegType   string `json:"regtype"` // the struct type registered for the message number that type resolves to
 	}
 	slots := []slot{}
 	for _, st := range sch.Types {
 		for _, s := range st.Slots {
-			slots = append(slots, slot{st.Name, s.Name, s.M})
+			reg := ""
+			if t := fit.VerifMesgType(fit.MesgNum(s.M)); t != nil {
+				reg = t.Name()
+			}
+			slots = append(slots, slot{st.Name, s.Name, s.M, s.GoType, reg})
 		}
 	}
 	return map[string]interface{}{"msgs": msgs, "rows": rows, "slots": slots}
